@@ -128,9 +128,9 @@ namespace
     };
 
     enum { S_PUSH, S_EMPLACE, S_RESIZE, S_ERASE, S_CLEAR, S_COPY_CTOR, S_MOVE_CTOR, S_COPY_ASSIGN, S_MOVE_ASSIGN, S_SELF_ASSIGN, S_CTOR_RANGE, S_CTOR_ILIST,
-           S_FILL, S_N };
+           S_FILL, S_ALGO, S_N };
     const char *S_NAME[] = {"push_back", "emplace_back", "resize", "erase", "clear", "copy_ctor", "move_ctor", "copy_assign", "move_assign", "self_assign",
-                            "ctor(range)", "ctor(ilist)", "fill_past_capacity"};
+                            "ctor(range)", "ctor(ilist)", "fill_past_capacity", "std-algorithm"};
 
     // one static_vector<E,N> object living in an exact-size simulated memory block
     template <class E, size_t N> struct Slot
@@ -302,6 +302,31 @@ namespace
                 expect_destroyed(w, h0e, b - a, "erase", true); // at least the removed ones (an implementation may also re-create the shifted tail)
                 mx.erase(mx.begin() + a, mx.begin() + b);
                 probe("erase");
+#endif
+                break;
+            }
+            case S_ALGO:
+            {
+                // handed to the standard library: begin()/end() are random-access iterators over the live elements
+                // (static_vector.h only: the twin's non-const end() hands out a const_iterator, which no algorithm pairs with begin())
+#ifndef C14_TWIN
+                size_t n0 = mx.size();
+                int val3 = (int)mod(arg(o, 4), 1000);
+                if (val3 % 3 == 0) { std::reverse(x.begin(), x.end()); std::reverse(mx.begin(), mx.end()); }
+                else if (val3 % 3 == 1 && n0)
+                {
+                    size_t k2 = (size_t)mod(arg(o, 2), (int64_t)n0);
+                    std::rotate(x.begin(), x.begin() + k2, x.end());
+                    std::rotate(mx.begin(), mx.begin() + k2, mx.end());
+                }
+                else
+                {
+                    long a = 0, b = 0;
+                    for (const E &e : x) a += val_of(e);
+                    for (int e : mx) b += e;
+                    if (a != b || (size_t)std::distance(x.begin(), x.end()) != n0) violate("C14/std-algorithm", "range-for / std::distance over the container give sum %ld over %td elements, the reference %ld over %zu", a, std::distance(x.begin(), x.end()), b, n0);
+                }
+                probe("handed_to_a_standard_algorithm");
 #endif
                 break;
             }
